@@ -6,8 +6,18 @@ import common, core_replay, gen_diag, kast
 PROP = "C12"
 
 
-def expected_lines(ast, pred, src):
+def expected_lines(ast, pred, src, cont=frozenset()):
+    """Lines on which the failing expression and each enclosing call expression START. A node that is the top
+    node of a statement rendered over several lines starts on the statement's first line; any other node
+    starts on the line its marker is on."""
     nodes = gen_diag.index_nodes(ast)
+    parents = {}
+
+    def walk(n):
+        for c in kast.children(n):
+            parents[c["id"]] = n
+            walk(c)
+    walk(ast)
     lines = src.split("\n")
 
     def line_of(nid):
@@ -18,7 +28,20 @@ def expected_lines(ast, pred, src):
         if m is None:
             return None
         hits = [i for i, l in enumerate(lines) if m in l]
-        return hits[0] if len(hits) == 1 else None
+        if len(hits) != 1:
+            return None
+        ln = hits[0]
+        par = parents.get(nid)
+        top = par is None or par["k"] == "block" or (par["k"] in ("asg",) and par["e"] is n)
+        # a `throw` statement's failing node is the throw itself (top of its statement)
+        if top:
+            while ln in cont and ln > 0:
+                ln -= 1
+        elif ln in cont:
+            # the node sits on a continuation line of its statement: it starts there only if it is an operand or
+            # argument rendered on its own line, which is how expr_ml lays statements out
+            pass
+        return ln
 
     return [line_of(pred["at"])] + [line_of(t) for t in pred["trace"]]
 
@@ -56,15 +79,15 @@ def run(tier, seed):
         pr = preds[p["id"]]
         if pr["status"] != "err":
             continue
-        for name, src in core_replay.variants(p["ast"], rng, 2 if quick else 4, ("top", "fn0", "fn3")):
+        for name, src, cont in core_replay.variants(p["ast"], rng, 3 if quick else 6, ("top", "fn0", "fn3"), with_lines=True):
             jobs.append({"id": "%s|%s" % (p["id"], name), "src": src, "limit_ms": 5000})
-            index.append((p, pr, name))
+            index.append((p, pr, name, cont))
     results = common.kv_parallel("run", jobs)
     checked = 0
     depth_hist = {}
-    for job, (p, pr, name), act in zip(jobs, index, results):
+    for job, (p, pr, name, cont), act in zip(jobs, index, results):
         src = job["src"]
-        exp = expected_lines(p["ast"], pr, src)
+        exp = expected_lines(p["ast"], pr, src, cont)
         why = core_replay.compare(pr, act)
         if why is None:
             if any(e is None for e in exp):
